@@ -12,13 +12,19 @@ def run(rep, tier):
                 rtm.ResultTypesGenerator._get_typename_values, rtm.ResultTypesGenerator._process_field_implementation,
                 rf.parse_operation_field, rf.parse_operation_field_type, rf.parse_interface_type, rf.parse_union_type,
                 rf.parse_list_type, rf.parse_directives, rf.annotate_nested_unions)
-    jobs = ezrun.corpus_jobs(tier, boot.seed())
+    jobs = [j for j in ezrun.corpus_jobs(tier, boot.seed()) if j.get("only_for") in (None, "C01")]
     known = rep._known
     for j in jobs:
         j["modes"] = ["accept", "faith"]
         j["known"] = known
     results = gen.pmap(ezcheck.analyze, jobs)
-    progs, ops, nodes, gen_fail = ezrun.fold(rep, results, jobs, {"accept", "faith"})
+    def not_analysable(job, r):
+        # every package of this corpus generates and loads on the unchanged tree; one that does not cannot be judged and is reported
+        why = (r["gen"] or {}).get("exc_msg") if not (r["gen"] or {}).get("ok") else str({k: v for k, v in (r.get("import") or {}).get("modules", {}).items() if v != "ok"})[:200]
+        rep.violation(ezrun.classify_unanalysable(job, r), {"schema": job["schema"], "queries": job["queries"], "config": job.get("config") or {}, "q": "package"},
+                      f"a package of the corpus does not generate / load, its models cannot be judged: {why}")
+
+    progs, ops, nodes, gen_fail = ezrun.fold(rep, results, jobs, {"accept", "faith"}, not_analysable)
     rep.coverage.update({
         "programs": progs, "operations": ops, "skeleton_nodes": nodes, "packages_not_analysed": gen_fail,
         "disagreements_checked": sum(len(r["findings"]) for r in results),
